@@ -30,9 +30,9 @@ def main_texts(pool: dict[str, Any], rng: random.Random) -> list[str]:
 	texts.append('def lone2(k: int) -> float:\n\tf = 1.5\n\treturn f')
 	texts.append('def bad(k: int) -> int:\n\treturn undefined_name + k')
 	texts.append('def broken(k: int) -> int:\n\treturn (k +')
-	m = pool['modules'][-1]
+	m = pools.core(pool)[-1]
 	texts.append(f'def nested_{pools.tag_of(m)}(k: int) -> int:\n\tfrom {m} import make_{pools.tag_of(m)}\n\tv = make_{pools.tag_of(m)}()\n\tw = v.value\n\treturn k')
-	m = pool['modules'][0]
+	m = pools.core(pool)[0]
 	texts.append(f'from {m} import make_{pools.tag_of(m)}\ndef err(k: int) -> int:\n\tv = make_{pools.tag_of(m)}()\n\treturn v.no_such_field')
 	return texts
 
@@ -136,7 +136,7 @@ class C04Runner:
 	def __init__(self, case: dict[str, Any]) -> None:
 		self.case = case
 		self.pool = case['pool']
-		self.state = case.get('state') or {m: 0 for m in self.pool['modules']}
+		self.state = case.get('state') or {m: (self.pool.get('initial') or {}).get(m, 0) for m in self.pool['modules']}
 		self.flavour = case.get('flavour', 'runner')
 		self.cache = case.get('cache')  # None = enabled and cold, False = disabled, 'lib' = enabled, library modules pre-cached, 'warm' = enabled and fully pre-warmed
 		self.ops = case['ops']
@@ -155,7 +155,7 @@ class C04Runner:
 	def project(self, tag: str) -> Project:
 		proj = Project(self.pool, tag=tag)
 		for m, v in self.state.items():
-			if v:
+			if proj.state.get(m) != v:
 				proj.set_variant(m, v, 10**9)
 		if self.cache == 'warm':
 			rec = proj.run(force=True)
@@ -368,7 +368,7 @@ class C04(Engine):
 		cases: list[dict[str, Any]] = []
 		for which in (0, 1):
 			pool = pools.fixed_pool(which)
-			mods = pool['modules']
+			mods = pools.core(pool)
 			top, leaf = mods[0], mods[-1]
 			mid = mods[1]
 			T = lambda m, **kw: {'op': 'transpile', 'm': m, **kw}
